@@ -209,6 +209,151 @@ def gen_seltable():
     return "\n".join(out)
 
 
+
+# ----------------------------------------------------------------------------- T4: schemas
+STRUCT_FILES = ["src/qvector/mod.rs", "src/qvector/rs_qvector.rs", "src/qvector/rs_qvector/rs_support_plain.rs",
+                "src/bitvector/mod.rs", "src/bitvector/rs_narrow.rs", "src/bitvector/rs_wide.rs", "src/darray/mod.rs",
+                "src/quadwt/mod.rs", "src/quadwt/huffqwt.rs", "src/quadwt/prefetch_support.rs", "src/binwt/mod.rs"]
+PRIMS = {"usize": "(TU 8)", "u64": "(TU 8)", "i64": "(TU 8)", "u32": "(TU 4)", "u16": "(TU 2)", "u8": "(TU 1)", "u128": "(TU 16)", "bool": "TBool"}
+
+
+def split_top(s, sep=","):
+    out, depth, cur = [], 0, ""
+    for ch in s:
+        if ch in "<([{":
+            depth += 1
+        elif ch in ">)]}":
+            depth -= 1
+        if ch == sep and depth == 0:
+            out.append(cur)
+            cur = ""
+        else:
+            cur += ch
+    if cur.strip():
+        out.append(cur)
+    return [x.strip() for x in out]
+
+
+def parse_structs():
+    """returns {qualified name: dict(generics=[...], fields=[(name, type)], complete=bool, file=...)}"""
+    structs = {}
+    for f in STRUCT_FILES:
+        src = strip_comments(read(f))
+        for m in re.finditer(r"((?:#\[[^\]]*\]\s*)+)(?:pub\s+)?struct\s+(\w+)\s*(<[^{;]*>)?\s*\{(.*?)\n\}", src, flags=re.S):
+            attrs, name, gen, body = m.group(1), m.group(2), m.group(3) or "", m.group(4)
+            if "Serialize" not in attrs:
+                continue
+            complete = ("Deserialize" in attrs) and ("serde(" not in attrs) and ("serde(" not in body)
+            generics = []
+            for g in split_top(gen.strip()[1:-1]) if gen.strip() else []:
+                g = g.split("=")[0].strip()
+                if g.startswith("const "):
+                    generics.append(("const", g.split()[1].rstrip(":")))
+                else:
+                    generics.append(("type", g.split(":")[0].strip()))
+            fields = []
+            for fld in split_top(body):
+                fld = re.sub(r"#\[[^\]]*\]", "", fld).strip()
+                if not fld:
+                    continue
+                mm = re.match(r"(?:pub(?:\([^)]*\))?\s+)?(\w+)\s*:\s*(.*)$", fld, flags=re.S)
+                if not mm:
+                    raise GenError("cannot parse field %r of struct %s" % (fld, name))
+                fields.append((mm.group(1), " ".join(mm.group(2).split())))
+            key = name
+            if name == "DataLine":
+                key = "DataLineQ" if "qvector" in f else "DataLineB"
+            structs[key] = dict(generics=generics, fields=fields, complete=complete, file=f)
+    return structs
+
+
+def ty_of(t, structs, file, tparams):
+    t = t.strip()
+    if t in PRIMS:
+        return PRIMS[t]
+    if t in tparams:
+        return tparams[t]
+    m = re.match(r"\[(.*);\s*(\w+)\]$", t)
+    if m:
+        return "(TArr %d %s)" % (intlit(m.group(2)), ty_of(m.group(1), structs, file, tparams))
+    m = re.match(r"(?:Box<\[(.*)\]>|Vec<(.*)>)$", t)
+    if m:
+        return "(TSeq %s)" % ty_of(m.group(1) or m.group(2), structs, file, tparams)
+    m = re.match(r"Option<(.*)>$", t)
+    if m:
+        return "(TOpt %s)" % ty_of(m.group(1), structs, file, tparams)
+    if t.startswith("PhantomData"):
+        return "TUnit"
+    if t.startswith("(") and t.endswith(")"):
+        return "(TTuple [%s])" % "; ".join(ty_of(x, structs, file, tparams) for x in split_top(t[1:-1]))
+    m = re.match(r"(\w+)(?:<(.*)>)?$", t)
+    if m:
+        name = m.group(1)
+        if name == "DataLine":
+            name = "DataLineQ" if "qvector" in file else "DataLineB"
+        if name in structs:
+            st = structs[name]
+            args = split_top(m.group(2)) if m.group(2) else []
+            targs = [a for a, (k, _) in zip(args, st["generics"]) if k == "type"] if args else []
+            return struct_ty(name, structs, [ty_of(a, structs, file, tparams) for a in targs])
+    raise GenError("unsupported field type %r in %s" % (t, file))
+
+
+def struct_ty(name, structs, targs):
+    st = structs[name]
+    tnames = [g for k, g in st["generics"] if k == "type"]
+    if len(targs) < len(tnames):
+        raise GenError("struct %s needs %d type arguments" % (name, len(tnames)))
+    tparams = dict(zip(tnames, targs))
+    return "(TTuple [%s])" % "; ".join(ty_of(t, structs, st["file"], tparams) for _, t in st["fields"])
+
+
+def gen_schema():
+    structs = parse_structs()
+    need = ["DataLineQ", "QVector", "SuperblockPlain", "RSSupportPlain", "RSQVector", "DataLineB", "BitVector", "BitVectorMut",
+            "RSNarrow", "RSWide", "Inventories", "DArray", "PrefetchSupport", "QWaveletTree", "PrefixCode", "HuffQWaveletTree", "WaveletTree"]
+    for n in need:
+        if n not in structs:
+            raise GenError("serializable struct %s not found (derive(Serialize) missing?)" % n)
+    complete = all(structs[n]["complete"] for n in need)
+    rsq = struct_ty("RSQVector", structs, [struct_ty("RSSupportPlain", structs, [])])
+    rsw = struct_ty("RSWide", structs, [])
+    entries = []      # (kind, elem, coq ty)
+    elems = {"u8": "TU 1", "u16": "TU 2", "u32": "TU 4", "u64": "TU 8", "usize": "TU 8", "u128": "TU 16"}
+    for kind in ["qwt256", "qwt512", "qwt256pfs", "qwt512pfs"]:
+        for e, te in elems.items():
+            entries.append((kind, e, struct_ty("QWaveletTree", structs, ["(%s)" % te, rsq])))
+    for kind in ["hqwt256", "hqwt512", "hqwt256pfs", "hqwt512pfs"]:
+        for e, te in elems.items():
+            entries.append((kind, e, struct_ty("HuffQWaveletTree", structs, ["(%s)" % te, rsq])))
+    for kind in ["wt", "hwt"]:
+        for e, te in elems.items():
+            entries.append((kind, e, struct_ty("WaveletTree", structs, ["(%s)" % te, rsw])))
+    for kind in ["rsq256", "rsq512"]:
+        entries.append((kind, "*", rsq))
+    entries.append(("qv", "*", struct_ty("QVector", structs, [])))
+    entries.append(("bv", "*", struct_ty("BitVector", structs, [])))
+    entries.append(("bvm", "*", struct_ty("BitVectorMut", structs, [])))
+    entries.append(("rsn", "*", struct_ty("RSNarrow", structs, [])))
+    entries.append(("rsw", "*", rsw))
+    entries.append(("darray0", "*", struct_ty("DArray", structs, [])))
+    entries.append(("darray1", "*", struct_ty("DArray", structs, [])))
+    out = ["(* GENERATED by tools/gen_from_src.py from the struct definitions of /repo/src. Do not edit. *)",
+           "From QwtModel Require Import Serde.", "Open Scope N_scope.", "",
+           "(* true iff every serializable struct derives Serialize and Deserialize and carries no #[serde(..)] attribute *)",
+           "Definition schema_complete : bool := %s." % ("true" if complete else "false"), ""]
+    names = []
+    idmap = {}
+    for i, (kind, e, t) in enumerate(entries):
+        out.append("Definition schema_%d : ty := %s.  (* %s %s *)" % (i, t, kind, e))
+        names.append("(%d, schema_%d)" % (i, i))
+        idmap["%s:%s" % (kind, e)] = i
+    out.append("")
+    out.append("Definition all_schemas : list (N * ty) := [%s]." % "; ".join(names))
+    out.append("")
+    return "\n".join(out), idmap
+
+
 def write_if_changed(path, content):
     old = None
     if os.path.exists(path):
@@ -237,6 +382,15 @@ def main():
         return 2
     ch = write_if_changed(os.path.join(OUT, "SelTable.v"), tab)
     print("gen: SelTable.v %s" % ("rewritten" if ch else "unchanged"))
+    try:
+        sch, idmap = gen_schema()
+    except GenError as e:
+        print("GEN-ERROR %s" % e)
+        return 2
+    ch = write_if_changed(os.path.join(OUT, "Schema.v"), sch)
+    import json
+    write_if_changed(os.path.join(OUT, "schema_ids.json"), json.dumps(idmap, indent=0, sort_keys=True))
+    print("gen: Schema.v %s" % ("rewritten" if ch else "unchanged"))
     return 0
 
 
